@@ -591,8 +591,10 @@ where
     fn extend<T: IntoIterator<Item = (I, P)>>(&mut self, iter: T) {
         for (item, priority) in iter {
             if self.map.contains_key(&item) {
-                let (_, old_item, old_priority) = self.map.get_full_mut2(&item).unwrap();
-                *old_item = item;
+                // Only the priority is updated, exactly as `push` does on the
+                // other strategy of `extend`: the outcome must not depend on
+                // which strategy the size hint selects.
+                let (_, _, old_priority) = self.map.get_full_mut2(&item).unwrap();
                 *old_priority = priority;
             } else {
                 self.map.insert(item, priority);
